@@ -209,8 +209,12 @@ func (qc queueCaller) PipelineSend(ctx context.Context, transform []capnp.Pipeli
 		if err = s.PlaceArgs(r.Args); err != nil {
 			return capnp.ErrorAnswer(s.Method, err), func() {}
 		}
+		args := r.Args
 		r.ReleaseArgs = func() {
-			r.Args.Message().Reset(nil)
+			if msg := args.Message(); msg != nil {
+				msg.Reset(nil)
+				args = capnp.Struct{}
+			}
 		}
 	} else {
 		r.ReleaseArgs = func() {}
